@@ -73,7 +73,8 @@ def summarize_D(prop, d, lock):
                 out["undecided"].append(dict(function=r["qual"], obligation=name, reason="solver timeout"))
             elif bad[0]["tag"] == "hygiene":
                 out["warnings"].append(dict(obligation=name, note="latent: representation hygiene only (not observable)"))
-            elif name in base:
+            elif name in base or (name.endswith(":undeclared") and any(b.startswith(r["qual"] + ":") for b in base)):
+                # (an exception the contract does not declare became possible on a path that is infeasible on the reference tree)
                 out["failed"].append(dict(obligation=name, function=r["qual"], paths=[o["trace"] for o in bad][:4],
                                           solver=[o["reason"] for o in bad][:4]))
             else:
